@@ -280,6 +280,55 @@ fn run(input: RunInput) -> ScenFuture {
                     break;
                 }
             }
+            // "any number of abandoned RPCs ... well beyond the concurrent-stream limit": with every
+            // stream the server grants held by slow calls, a few hundred further calls are issued
+            // and abandoned while they are still waiting for a stream; afterwards the connection
+            // serves as before
+            if !lossy && !w.violated() && w.flag("mass_abandonment_while_waiting_for_a_stream", 0.2) {
+                let seen_before = h.seen().len();
+                let holders: Vec<_> = (0..max_bidi).map(|i| {
+                    let req = Request::new(Bytes::from(format!("hold{i}"))).with_header("x-nonce", (2_000_000 + i).to_string()).with_header("x-delay-ms", "1500").with_header("x-resp-len", "3");
+                    let c = client.clone();
+                    let sid = server.peer_id;
+                    tokio::spawn(async move { rpc_bounded(&c, sid, req, Duration::from_secs(20)).await.is_ok() })
+                }).collect();
+                let t0 = w.now_ns();
+                while (h.seen().len() - seen_before) < max_bidi as usize && w.now_ns() - t0 < 1_000_000_000 {
+                    sleep_ms(1).await;
+                }
+                let n_mass = w.param("mass_abandoned_calls", 100, 400) as u64;
+                let mut mass = Vec::new();
+                for i in 0..n_mass {
+                    let req = Request::new(Bytes::from_static(b"never sent")).with_header("x-nonce", (3_000_000 + i).to_string());
+                    let (c, sid) = (client.clone(), server.peer_id);
+                    let give_up_us = 500 + (i % 7) * 400;
+                    mass.push(tokio::spawn(async move { tokio::time::timeout(Duration::from_micros(give_up_us), c.net.rpc(sid, req)).await.is_ok() }));
+                }
+                let mut got_through = 0;
+                for m in mass {
+                    if m.await.unwrap_or(false) {
+                        got_through += 1;
+                    }
+                }
+                let _ = got_through;
+                for hnd in holders {
+                    if !hnd.await.unwrap_or(false) {
+                        w.violate("sibling-failed", "holder", "a call that held a stream while others were abandoned failed".to_string());
+                    }
+                }
+                sleep_ms(10 * lat_max / 1000 + 50).await;
+                let fresh = (0..max_bidi).map(|i| {
+                    let req = Request::new(Bytes::from(format!("after{i}"))).with_header("x-nonce", (4_000_000 + i).to_string()).with_header("x-resp-len", "5");
+                    rpc_bounded(&client, server.peer_id, req, Duration::from_secs(20))
+                });
+                for (i, r) in futures::future::join_all(fresh).await.iter().enumerate() {
+                    if let Err(e) = r {
+                        w.violate("fresh-rpc-blocked", "after-mass-abandonment", format!("fresh call {i} of {max_bidi} after {n_mass} calls abandoned while waiting for a stream failed: {e}"));
+                        break;
+                    }
+                }
+                w.probe("mass-abandonment-phase");
+            }
         } else {
             w.probe("connection-lost(lossy)");
         }
